@@ -373,7 +373,7 @@ PROFILES = [
     ["rm_rxns"] * 3 + ["ctx_rm_edit"] * 3 + ["detached_rule"] * 3 + ["detached_bounds"] * 2 + ["readd_rxn"] * 3 + ["build_str"] * 3 + ["add_rxns_badid"] * 2 + ["set_rule", "ko_gene", "add_rxns"] + CTX,   # objects outside the model, equations, refused identifiers
 ]
 
-MODELLED = {"set_lb", "set_ub", "set_bounds", "ko_gene", "ko_rxn", "ko_genes", "obj_coef", "set_dir", "enter", "exit",
+MODELLED = {"set_lb", "set_ub", "set_bounds", "ko_gene", "ko_rxn", "ko_genes", "obj_coef", "set_obj", "set_dir", "enter", "exit",
             "add_mets", "sub_mets", "set_rule"}
 
 
@@ -593,12 +593,12 @@ def gen_op(rng, ex: Exec, kinds=None, p_bad=0.12):
             targets = [targets[0]] * len(olds)      # several genes merged into one new id
         return {"op": k, "map": [[a, b] for a, b in zip(olds, targets)]}
     if k == "add_model_mets":
-        ms = rng.sample(MIDS, rng.randint(1, 2))
+        ms = rng.sample(MIDS, 1 if rng.random() < 0.6 else 2)
         if bad and rng.random() < 0.5:
             ms = ms + [ms[0]]
         return {"op": k, "ms": ms}
     if k == "rm_mets":
-        return {"op": k, "ms": rng.sample(mids, min(len(mids), rng.randint(1, 2))) if mids else [], "destructive": rng.random() < 0.4}
+        return {"op": k, "ms": rng.sample(mids, min(len(mids), 1 if rng.random() < 0.6 else 2)) if mids else [], "destructive": rng.random() < 0.35}
     if k == "add_boundary":
         return {"op": k, "m": rng.choice(mids) if mids else "A", "type": rng.choice(["exchange", "demand", "sink"])}
     if k == "imul":
